@@ -451,6 +451,8 @@ pub struct Node {
 	/// data processed after its last poll of pending (monitor) events
 	pub last_sync_step: u64,
 	pub unpolled_at_reorg: bool,
+	/// channels with a completed monitor write the ChannelManager has not been told about yet
+	pub unprocessed_completions: BTreeSet<[u8; 32]>,
 	/// channels this node reported closed (any reason) in this / in an earlier incarnation
 	pub closed_this_incarnation: BTreeSet<usize>,
 	pub closed_in_earlier_incarnation: BTreeSet<usize>,
@@ -759,6 +761,7 @@ impl World {
 				event_seq: 0,
 				last_sync_step: 0,
 				unpolled_at_reorg: false,
+				unprocessed_completions: BTreeSet::new(),
 				closed_this_incarnation: BTreeSet::new(),
 				closed_in_earlier_incarnation: BTreeSet::new(),
 				loaded_gens: Vec::new(),
@@ -1102,6 +1105,7 @@ impl World {
 
 	pub fn do_pump(&mut self, n: usize) -> bool {
 		self.nodes[n].last_poll_step = self.step;
+		self.nodes[n].unprocessed_completions.clear();
 		let mgr = match self.mgr(n) {
 			Some(m) => m,
 			None => return false,
@@ -1621,6 +1625,7 @@ impl World {
 
 	pub fn do_drain(&mut self, n: usize) -> bool {
 		self.nodes[n].last_poll_step = self.step;
+		self.nodes[n].unprocessed_completions.clear();
 		let (mgr, mon) = match self.nodes[n].live.as_ref() {
 			Some(l) => (Arc::clone(&l.manager), Arc::clone(&l.monitor)),
 			None => return false,
@@ -2280,7 +2285,7 @@ impl World {
 		let inflight = {
 			let d = self.nodes[n].disk.lock().unwrap();
 			d.chans.get(&key).map(|c| !c.completions.is_empty()).unwrap_or(false)
-		};
+		} || self.nodes[n].unprocessed_completions.contains(&key);
 		let open = self
 			.mgr(n)
 			.map(|m| m.list_channels().iter().any(|d| d.channel_id.0 == key))
@@ -2369,6 +2374,9 @@ impl World {
 			id
 		};
 		let cid = ChannelId(chan_key);
+		// until the ChannelManager next processes monitor events it still treats this channel as
+		// "update in progress"
+		self.nodes[n].unprocessed_completions.insert(chan_key);
 		match catch(|| mon.channel_monitor_updated(cid, taken)) {
 			Ok(Ok(())) => {},
 			Ok(Err(e)) => self.harness_error(format!("channel_monitor_updated: {:?}", e)),
